@@ -1020,6 +1020,13 @@ class PseudoNetCDFFile(PseudoNetCDFSelfReg, object):
                 isinstance(val, (PseudoNetCDFVariable,)) and
                 val.dimensions != ()
             ):
+                if any([
+                    isinstance(v, np.ndarray) and np.may_share_memory(val, v)
+                    for v in self.variables.values()
+                ]):
+                    # e.g., "B = A" or "B = A[:2]": do not store the
+                    # existing variable (or a view of it) under a new name
+                    val = val.copy()
                 outf.variables[key] = val
             else:
                 outf.createVariable(key, val.dtype.char,
